@@ -68,6 +68,28 @@ impl CKBProtocolHandler for SyncProtocol {
         match message {
             packed::SyncMessageUnionReader::SendBlock(reader) => {
                 let new_block = reader.to_entity().block();
+                // Only the header is proved (by its hash), so the body must be the one which is
+                // committed by the header.
+                // Notice: `into_view()` resets the merkle roots in the header, don't use it here.
+                {
+                    let block_view = new_block.clone().into_view_without_reset_header();
+                    if block_view.transactions_root() != block_view.calc_transactions_root()
+                        || block_view.proposals_hash() != block_view.calc_proposals_hash()
+                        || block_view.extra_hash() != block_view.calc_extra_hash().extra_hash()
+                    {
+                        warn!(
+                            "SyncProtocol.received a block {:#x} whose body isn't committed by its header from Peer({})",
+                            block_view.hash(),
+                            peer
+                        );
+                        nc.ban_peer(
+                            peer,
+                            BAD_MESSAGE_BAN_TIME,
+                            String::from("send us a block with an invalid body"),
+                        );
+                        return;
+                    }
+                }
                 let mut matched_blocks = self.peers.matched_blocks().write().expect("poisoned");
                 self.peers.add_block(&mut matched_blocks, new_block);
 
